@@ -10,7 +10,8 @@ EXTENDS WeakDom, FiniteSetsExt
 CONSTANTS MaxUid,        \* uid tokens 1..MaxUid
           BUids,         \* ids a builder may carry explicitly
           MaxRefProps,   \* bound on the number of instances holding a Ref property
-          MaxCloneRoots  \* 1 or 2: roots per clone call
+          MaxCloneRoots, \* 1 or 2: roots per clone call
+          RootlessDoms   \* DOMs that start as WeakDom::default() + insert(Ref::none(), one instance)
 
 -----------------------------------------------------------------------------
 Shapes == {<<0>>, <<0, 1>>, <<0, 1, 1>>, <<0, 1, 2>>}
@@ -93,7 +94,9 @@ Next ==
     \/ \E r \in Live : \E s \in Slots : \E v \in (1..(nextRef - 1)) \cup {Null} : SetRef(r, s, v)
 
 \* The model starts after WeakDom::new(single instance) for every DOM (referents 1..NumDoms);
-\* New itself is exercised by the trace specification and the history enumeration.
+\* New itself is exercised by the trace specification and the history enumeration.  A DOM in RootlessDoms
+\* starts instead as WeakDom::default() followed by insert(Ref::none(), single instance): no root, one orphan
+\* (which, unlike a root, may be destroyed or moved).
 MCInit ==
     /\ owner  = [r \in Refs |-> IF r <= NumDoms THEN r ELSE NoDom]
     /\ parent = [r \in Refs |-> Null]
@@ -102,7 +105,7 @@ MCInit ==
     /\ refp   = [r \in Refs |-> AbsentAll]
     /\ uid    = [r \in Refs |-> NoUid]
     /\ uidset = [d \in Doms |-> {}]
-    /\ root   = [d \in Doms |-> d]
+    /\ root   = [d \in Doms |-> IF d \in RootlessDoms THEN Rootless ELSE d]
     /\ nextRef = NumDoms + 1
     /\ seen   = {}
 
